@@ -80,15 +80,21 @@ class Monitor(object):
         -------
 
         """
+        # Each list is emptied once it has been collected, so that an event is
+        # recorded exactly once however often this method is called (it is
+        # called every timestep and again when start() returns).
         if self.simulation.instrument.events:
             self.events = pd.concat([self.events,
                                     pd.DataFrame(self.simulation.instrument.events)])
+            self.simulation.instrument.events = []
 
         if self.simulation.scheduler.events:
             self.events = pd.concat([self.events,
                                     pd.DataFrame(self.simulation.scheduler.events)])
+            self.simulation.scheduler.events = []
         if self.simulation.buffer.events:
             self.events = pd.concat([self.events,
                                     pd.DataFrame(self.simulation.buffer.events)])
+            self.simulation.buffer.events = []
 
         self.events = self.events.infer_objects()
